@@ -48,6 +48,14 @@ def gen_plan(rng, i: int, tier: str) -> dict:
             b_ = rng.randrange(0, now_pos[1] + 1)
         return [l0, a, b_]
 
+    if i % 25 == 24:
+        # long offline history over many L0 epochs on one cache (cache growth / eviction paths)
+        ops.append({"op": "load_key", "rk": 0})
+        for k in range(rng.randint(17, 24)):
+            ops.append({"op": "unprotect", "fl": "sync" if k % 3 else "async", "net": "offline", "group": None,
+                        "blob": {"rk": 0, "sid": offline.SID_A, "pos": [l0 - k, rng.randrange(32), rng.randrange(32)], "mode": "nonce", "data": 3}})
+        plan["family"] = "many-l0"
+        return plan
     n = rng.randint(2, 10 if tier == "thorough" else 7)
     focus_rk, focus_sid = rng.randrange(2), rng.choice(SIDS[:1] * 3 + SIDS[1:])
     g = 0
@@ -65,8 +73,10 @@ def gen_plan(rng, i: int, tier: str) -> dict:
                 grp = g
         if r < 0.14:
             ops.append({"op": "load_key", "rk": focus_rk if rng.random() < 0.8 else 1 - focus_rk})
+        elif r < 0.19:
+            ops.append({"op": "clock", "advance_ticks": rng.choice((1, B, 3 * B, 32 * B, -B, -2 * B))})  # the wall clock may also step back
         elif r < 0.22:
-            ops.append({"op": "clock", "advance_ticks": rng.choice((1, B, 3 * B, 32 * B))})
+            ops.append({"op": "identity", "sids": rng.choice(([offline.SID_A], [offline.SID_A, offline.SID_B], [offline.SID_B], []))})
         elif r < 0.75:
             rk = focus_rk if rng.random() < 0.8 else 1 - focus_rk
             sid = focus_sid if rng.random() < 0.8 else rng.choice(SIDS)
@@ -91,6 +101,10 @@ def judge(plan, tr: P.Trace):
     for ot in tr.ops:
         op = ot.op
         kind = op["op"]
+        if kind == "identity":
+            member_sids = set(op["sids"])
+            probes["identity_change"] = 1
+            continue
         if kind == "load_key":
             loaded[op["rk"]] = ot.return_seq
             continue
@@ -182,7 +196,8 @@ class C10(common.Check):
     id = "C10"
     level = "exploration"
     rule = ("case = plan of 2..10 operations on ONE shared KeyCache over {load_key, unprotect of a reference-made blob (2 root keys x 2 SIDs x "
-            "current/previous L0 x positions incl. corners and DC-future), protect (root key id named or not), clock advance}, each offline or "
+            "current/previous L0 x positions incl. corners and DC-future), protect (root key id named or not), clock advance or step back, change of "
+            "the caller's group membership}, plus long offline histories over 17..24 L0 epochs, each offline or "
             "online, sync or async; consecutive async operations of a group run concurrently under the PRNG scheduler (latencies up to 200 ms "
             "decide completion order), PRNG segmentation. Oracle: termination within 300 KDF calls; outcome in the set a fresh cache (with the "
             "root keys loaded so far) allows; zero GetKey at the DC for operations started after covering material was obtained. "
@@ -191,7 +206,7 @@ class C10(common.Check):
                   "scheduler / transport / clock": "simulated (SimLoop external-completion order from the PRNG, ready queue FIFO)",
                   "security context": "stub (StubCtx)", "reference model": "analytic fresh-cache model + ref.cms/ref.gkdi"}
     assumptions = ["'fresh cache' = a new KeyCache holding the root keys loaded so far", "two overlapping operations may both fetch: RPC economy is judged only for operations invoked after the covering one returned (global event sequence numbers)"]
-    required_fired = ("cache_hit_no_rpc", "cache_made_it_possible", "legit_failure", "concurrent_groups", "covered_op")
+    required_fired = ("cache_hit_no_rpc", "cache_made_it_possible", "legit_failure", "concurrent_groups", "covered_op", "identity_change", "many_l0")
 
     def cases(self, tier, seed):
         rng = prng.stream(seed, "C10")
@@ -208,6 +223,7 @@ class C10(common.Check):
                 groups[o["group"]] = groups.get(o["group"], 0) + 1
         conc = sum(1 for v in groups.values() if v > 1)
         probes["concurrent_groups"] = conc
+        probes["many_l0"] = int(case.get("family") == "many-l0")
         sched = common.key_hash(tr.schedule)
         n_api = sum(1 for o in case["ops"] if o["op"] in ("protect", "unprotect"))
         return {"viol": viol, "digest": tr.world.digest(), "key": common.key_hash([case, sched]) if n_api >= 2 else None,
